@@ -56,9 +56,9 @@ type vcState struct {
 }
 
 type vcObs struct {
-	A   string  `json:"a"`
-	Ret []int64 `json:"ret"`
-	Err string  `json:"err"`
+	A   string      `json:"a"`
+	Ret interface{} `json:"ret"` // offsets ([]int64); fingerprints ([]string) for Drain
+	Err string      `json:"err"`
 }
 
 // vcRead is one read-back: a fresh reader started at S (committed if C),
@@ -106,6 +106,9 @@ type vcRun struct {
 	now  int64
 	l    *commitLog
 	pend *vcPending
+	// persistent readers (kept across cleans)
+	readers map[string]*Reader
+	rd      map[string]vcRd
 }
 
 // the mocked clock read by computeTTL and the gate used by the run in progress
@@ -129,6 +132,8 @@ func (r *vcRun) open() {
 		r.t.Fatalf("open commit log: %v", err)
 	}
 	r.l = cl.(*commitLog)
+	r.readers = map[string]*Reader{}
+	r.rd = map[string]vcRd{"r1": {}, "r2": {}}
 }
 
 // scanLog is the content of the log as an uncommitted reader sees it from the
@@ -158,7 +163,7 @@ func (r *vcRun) state() vcState {
 		HW:     r.l.HighWatermark(),
 		Epochs: vEpochs(r.l),
 		Ro:     r.l.IsReadonly(),
-		Rd:     map[string]vcRd{"r1": {}, "r2": {}},
+		Rd:     map[string]vcRd{"r1": r.rd["r1"], "r2": r.rd["r2"]},
 		Cc:     r.cc,
 		Now:    r.now,
 	}
@@ -310,6 +315,7 @@ func (r *vcRun) step(id int, step map[string]interface{}) vcEvent {
 		args = map[string]interface{}{}
 		obs  = vcObs{A: a, Ret: []int64{}}
 		recs []vArgRec
+		fps  []string // what a Drain delivered
 	)
 	func() {
 		defer func() {
@@ -371,6 +377,54 @@ func (r *vcRun) step(id int, step map[string]interface{}) vcEvent {
 				return
 			}
 			r.cleanEnd(&obs)
+		case "NewReader":
+			name, s, c := vStr(step, "r"), vInt(step, "s"), vBool(step, "c")
+			args["r"], args["s"], args["c"] = name, s, c
+			if r.pend != nil {
+				obs.A, a = "Skip", "Skip"
+				return
+			}
+			// documented contract: a committed reader beyond the HW (or on an
+			// empty log) waits; observed before the call, not predicted
+			hwNow := r.l.HighWatermark()
+			parked := c && (s > hwNow || r.l.OldestOffset() == -1)
+			base := s
+			if parked {
+				base = hwNow + 1
+			}
+			rdr, err := r.l.NewReader(s, !c)
+			if err != nil {
+				obs.Err = "reader"
+				r.rd[name] = vcRd{}
+				delete(r.readers, name)
+			} else {
+				r.readers[name] = rdr
+				r.rd[name] = vcRd{Alive: true, C: c, Next: s, Parked: parked, Base: base}
+			}
+		case "Drain":
+			name := vStr(step, "r")
+			args["r"] = name
+			rdr, ok := r.readers[name]
+			if !ok || r.pend != nil {
+				obs.A, a = "Skip", "Skip"
+				return
+			}
+			got, e := vDrain(rdr)
+			for _, x := range got {
+				fps = append(fps, x.Fp)
+			}
+			if e != "" {
+				// a reader that failed is not used again
+				obs.Err = e
+				delete(r.readers, name)
+				r.rd[name] = vcRd{}
+			}
+			if len(got) > 0 {
+				st := r.rd[name]
+				st.Next = got[len(got)-1].Off + 1
+				st.Parked = false
+				r.rd[name] = st
+			}
 		case "Reopen":
 			if r.pend != nil {
 				obs.A, a = "Skip", "Skip"
@@ -386,12 +440,19 @@ func (r *vcRun) step(id int, step map[string]interface{}) vcEvent {
 	}()
 	st := r.state()
 	if recs != nil {
+		offs, _ := obs.Ret.([]int64)
 		for i := range recs {
-			if i < len(obs.Ret) {
-				recs[i].Fp = vcFpAt(st.Log, obs.Ret[i])
+			if i < len(offs) {
+				recs[i].Fp = vcFpAt(st.Log, offs[i])
 			}
 		}
 		args["recs"] = recs
+	}
+	if a == "Drain" {
+		if fps == nil {
+			fps = []string{}
+		}
+		obs.Ret = fps
 	}
 	ev := vcEvent{T: id, A: a, Args: args, St: st, Obs: obs, Win: r.pend != nil,
 		Rb: []vcRead{}, Rv: []vcRead{}, Tl: []vcTsLookup{}}
